@@ -81,6 +81,12 @@ type Config struct {
 	// If the Server doesn't respond within RequestTimeout time, Client returns StatusBadTimeout
 	RequestTimeout time.Duration
 
+	// ResponseWriteTimeout bounds the time the write of one chunk of a response
+	// may take. A peer that stops reading its responses fills the buffers of
+	// the connection; when a write then does not complete within this time the
+	// connection is closed. Zero means a default of five seconds.
+	ResponseWriteTimeout time.Duration
+
 	// AcceptSecurity is consulted by a server side secure channel for every
 	// OpenSecureChannel request with the security policy URI and the message
 	// security mode the client asks for. The channel is only opened if it
